@@ -248,8 +248,8 @@ def check_cli(ctx, c):
             per_holder[h] = per_holder.get(h, 0) + 1
         ctx.count(c, nontrivial=bool((yr and pfx != "spdx") or (c["merge"] and any(v >= 2 for v in per_holder.values()))),
                   labels=[f"cli:merge={c['merge']}", f"cli:style={c['style']}", f"cli:years={len(c['years'])}", f"cli:mode={c.get('mode')}"])
-        if c["merge"] and ex_lines:
-            # (without an existing header there is nothing to merge with)
+        if c["merge"]:
+            # (the requested statements are merged among themselves too, also when there is no header yet)
             judge_merged(ctx, c, got, merge_expect(c["existing"] + new_items), "annotate --merge-copyrights + lint")
         else:
             want = set(ex_lines) | new_lines
